@@ -744,6 +744,7 @@ def oracle_c10(rr: Any, spec: Dict[str, Any]) -> "tuple[List[Violation], int]":
             v.append(Violation("send-failed", f"send {tok}: no failure injected but kiq() raised {first(evs, 'send_err')}"))
     # ---- worker side: per delivery
     per = by_delivery(tr)
+    send_of = {s_["tok"]: s_ for s_ in spec.get("client_sends", [])}
     for info in rr.sc.deliveries:
         d = info["d"]
         evs = per.get(d, [])
@@ -760,11 +761,18 @@ def oracle_c10(rr: Any, spec: Dict[str, Any]) -> "tuple[List[Violation], int]":
         te = [e for e in evs if e["k"] == "task_end"]
         how = te[-1]["how"] if te else None
         want = [("pre_execute", i) for i in overriding("pre_execute")]
-        want += [("task_start", None), ("task_end", None)]
+        lab_t = (send_of.get(info["tok"]) or {}).get("labels", {}).get("timeout")
+        if isinstance(lab_t, str) and not _is_number(lab_t):
+            how = "raise"  # the label cannot be read: the execution fails before the function is started
+        else:
+            want += [("task_start", None), ("task_end", None)]
         if how in ("raise", "cancelled", "noresult"):
             want += [("on_error", i) for i in overriding("on_error")]
         want += [("post_execute", i) for i in overriding("post_execute")]
-        if how != "noresult":
+        resent = any(e["k"] == "kick" for e in evs)
+        if resent and (spec.get("retry") or {}).get("no_result_on_retry"):
+            pass  # the retry middleware took the failure over: nothing is stored for this attempt
+        elif how != "noresult":
             want.append(("set_enter", None))
             if first(evs, "set_fail") is not None:
                 want.append(("set_fail", None))
@@ -784,6 +792,14 @@ def oracle_c10(rr: Any, spec: Dict[str, Any]) -> "tuple[List[Violation], int]":
                 if mws[e["mw"]]["pre_execute"].get("replace"):
                     marks.append(f"mk_{e['mw']}_pre_execute")
     return v, checked
+
+
+def _is_number(x: str) -> bool:
+    try:
+        float(x)
+        return True
+    except ValueError:
+        return False
 
 
 # -------------------------------------------------------------------------------- C12
